@@ -33,7 +33,7 @@ executed >= 3 ticks."
     let kinds: std::cell::RefCell<std::collections::BTreeMap<u64, String>> = Default::default();
     drive(
         ctx,
-        Drive { sub: SUB, batch: format!("C24-{}", tier.name()), n_prog: tier.pick(48, 1000), chunk: tier.pick(48, 250), floor: tier.pick(30, 600) },
+        Drive { extra_prefix: "", sub: SUB, batch: format!("C24-{}", tier.name()), n_prog: tier.pick(48, 1000), chunk: tier.pick(48, 250), floor: tier.pick(30, 600) },
         |rng, _cov| {
             counter += 1;
             let (case, kind) = gen_c24(rng, counter);
